@@ -929,3 +929,114 @@ Proof.
   split; [exact K3'|]. split; [repeat split; auto|]. split; [now rewrite R3'|].
   unfold abs_ext at 1. cbn [e_dopt e_dumper e_tls]. rewrite R6, B5, R5, B14, B4, R4, B33. reflexivity.
 Qed.
+
+Lemma repeat_true_nth n i : nth i (repeat true n) true = true.
+Proof. revert i; induction n; destruct i; simpl; auto. Qed.
+
+Lemma clone_obj_sim grow H ow src dst o H' o' :
+  lens H ow -> obj_ok H ow src o -> clone_obj grow deep_tbl H o = (H', o') ->
+  exists eA eM eR eJ, lens H' (ext ow eA eM eR eJ) /\ noframe H ow H' /\
+    obj_ok H' (ext ow eA eM eR eJ) dst o' /\ abs_obj H' o' = vclone (abs_obj H o).
+Proof.
+  intros L O Hc. pose proof L as (La & Lm & Lr & Lj). pose proof O as [O1 O2 O3 O4 O5].
+  unfold clone_obj in Hc. cbn [deep_tbl t_sl t_mp t_rt t_scal] in Hc.
+  destruct (clone_sls (repeat true NSL) (arrs H) (o_sl o)) as [A1 sls] eqn:E1.
+  destruct (clone_mps (repeat true NMP) (maps H) (o_mp o)) as [M1 mps] eqn:E2.
+  destruct (rt_clone grow (with_maps (with_arrs H A1) M1) (o_rt o)) as [H2 rt] eqn:E3.
+  destruct (clone_boxes deep_tbl (jars H2) o) as [[J6 jar] x] eqn:E4.
+  injection Hc as <- <-.
+  destruct (clone_sls_spec dst src _ _ 0 _ (owA ow) _ _ (repeat_true_nth NSL) La O1 E1) as (e1 & LA1 & KA1 & RA1 & FA1).
+  destruct (clone_mps_spec dst _ _ 0 _ (owM ow) _ _ (repeat_true_nth NMP) Lm E2) as (e2 & LM1 & KM1 & RM1 & FM1).
+  specialize (RM1 src O2).
+  set (H1 := with_maps (with_arrs H A1) M1) in *.
+  assert (L1 : lens H1 (ext ow e1 e2 [] [])).
+  { unfold lens, ext, H1; simpl. rewrite !app_nil_r. auto. }
+  destruct (rt_ok_frame (arrs H) (recs H) (owA ow) (owR ow) A1 (recs H) e1 [] (fun _ => False) (fun _ => False) src (o_rt o)
+              O3 FA1 (frame_refl _ _ _ _)) as [O3' V3]; auto.
+  assert (O3'' : rt_ok (arrs H1) (recs H1) (owA (ext ow e1 e2 [] [])) (owR (ext ow e1 e2 [] [])) src (o_rt o)).
+  { unfold H1, ext; simpl. exact O3'. }
+  destruct (rt_clone_spec grow dst src H1 (ext ow e1 e2 [] []) (o_rt o) H2 rt L1 O3'' E3) as (eA3 & eR3 & L2 & EM2 & EJ2 & FA2 & FR2 & K3 & V2).
+  pose proof L2 as (La2 & Lm2 & Lr2 & Lj2). unfold ext in La2, Lm2, Lr2, Lj2, FA2, FR2, K3; simpl in La2, Lm2, Lr2, Lj2, FA2, FR2, K3.
+  rewrite ?app_nil_r in *.
+  assert (LJ2 : length (owJ ow) = length (jars H2)) by (rewrite EJ2; exact Lj).
+  assert (O4' : jar_ok (owJ ow) src (o_jar o) (o_fact o)) by exact O4.
+  rewrite EJ2 in E4.
+  destruct (clone_boxes_spec dst src (jars H) (owJ ow) o _ _ _ Lj O4 O5 E4) as (e6 & L6 & F6 & KJ & KX & RJ & RX).
+  exists (e1 ++ eA3), e2, eR3, e6.
+  split; [|split; [|split]].
+  - unfold lens, ext; simpl. rewrite app_assoc. repeat split; auto; try (now rewrite EM2).
+  - unfold noframe, hframe; simpl. split; [eapply frame_trans; eauto|].
+    split; [now rewrite EM2|]. split; [exact FR2|exact F6].
+  - constructor; unfold ext; simpl.
+    + intros i. rewrite app_assoc. apply (sl_ok_frame _ _ _ eA3 _ _ _ (KA1 i) (fun x : False => x) FA2).
+    + intros i. apply KM1.
+    + rewrite app_assoc. exact K3.
+    + exact KJ.
+    + exact KX.
+  - assert (ESL : map (sl_read (arrs H2)) sls = map (sl_read (arrs H)) (o_sl o)).
+    { rewrite <- RA1. apply map_nth_ext with (d := None). intros i.
+      apply (sl_ok_frame _ _ _ eA3 _ _ _ (KA1 i) (fun x : False => x) FA2). }
+    assert (EMP : map (mp_read (maps H2)) mps = map (mp_read (maps H)) (o_mp o)) by (rewrite EM2; exact RM1).
+    assert (ERT : rt_view (arrs H2) (recs H2) rt = rt_view (arrs H) (recs H) (o_rt o)) by (rewrite V2; exact V3).
+    rewrite !abs_obj_eq. unfold vclone.
+    cbn [v_sl v_mp v_rt v_chain v_tchain v_scal v_jar v_fact v_par v_ext
+         o_sl o_mp o_rt o_chain o_tchain o_scal o_jar o_fact o_par o_ext arrs maps recs jars with_jars].
+    rewrite ESL, EMP, ERT, RJ, RX, !sl_read_nth.
+    f_equal.
+    + destruct (sl_read (arrs H) (nth F_RTW (o_sl o) None)); reflexivity.
+    + destruct (sl_read (arrs H) (nth F_TRW (o_sl o) None)); reflexivity.
+Qed.
+
+Lemma new_req_sim grow H ow c dst co H' o' :
+  lens H ow -> obj_ok H ow (OC c) co -> new_req grow H c co = (H', o') ->
+  exists eA eM eR eJ, lens H' (ext ow eA eM eR eJ) /\ noframe H ow H' /\
+    obj_ok H' (ext ow eA eM eR eJ) dst o' /\ abs_obj H' o' = vnew_req c (abs_obj H co).
+Proof.
+  intros L O Hc. pose proof O as [O1 O2 O3 O4 O5]. unfold new_req in Hc.
+  destruct (rt_clone grow H (o_rt co)) as [H1 rt] eqn:E. injection Hc as <- <-.
+  destruct (rt_clone_spec grow dst (OC c) H ow _ _ _ L O3 E) as (eA & eR & L1 & EM & EJ & FA & FR & K & V).
+  exists eA, [], eR, []. split; [exact L1|]. split; [|split].
+  - unfold noframe, hframe. rewrite EM, EJ. split; [exact FA|]. split; [apply frame_refl|]. split; [exact FR|apply frame_refl].
+  - constructor; unfold ext; simpl; auto.
+    + intros i. do 8 (destruct i as [|i]; [exact I|]). exact I.
+    + intros i. do 5 (destruct i as [|i]; [exact I|]). exact I.
+    + repeat split; exact I.
+  - rewrite !abs_obj_eq. unfold vnew_req. cbn [o_sl o_mp o_rt o_chain o_tchain o_scal o_jar o_fact o_par o_ext v_rt].
+    rewrite V. reflexivity.
+Qed.
+
+Lemma new_client_sim H ow dst H' o' :
+  lens H ow -> new_client H = (H', o') ->
+  exists eA eM eR eJ, lens H' (ext ow eA eM eR eJ) /\ noframe H ow H' /\
+    obj_ok H' (ext ow eA eM eR eJ) dst o' /\ abs_obj H' o' = vclient0.
+Proof.
+  intros (La & Lm & Lr & Lj) Hc. unfold new_client in Hc.
+  destruct (sl_lit (arrs H) INTERNAL_AFTER) as [A s] eqn:E. injection Hc as <- <-.
+  destruct (sl_lit_spec _ (owA ow) (dst, KSl F_AFTER) _ _ _ La E) as (L1 & K1 & R1 & F1).
+  exists [(dst, KSl F_AFTER)], [], [], [(dst, 0); (dst, 2)].
+  assert (T0 : nth_error (owJ ow ++ [(dst, 0); (dst, 2)]) (length (jars H)) = Some (dst, 0)).
+  { rewrite <- Lj. rewrite nth_error_app2 by lia. now rewrite Nat.sub_diag. }
+  assert (T2 : nth_error (owJ ow ++ [(dst, 0); (dst, 2)]) (S (length (jars H))) = Some (dst, 2)).
+  { rewrite <- Lj. rewrite nth_error_app2 by lia. replace (S (length (owJ ow)) - length (owJ ow)) with 1 by lia. reflexivity. }
+  split; [|split; [|split]].
+  - unfold lens, ext; simpl. rewrite !app_nil_r.
+    split; [exact L1|]. split; [exact Lm|]. split; [exact Lr|]. rewrite !app_length. simpl. lia.
+  - unfold noframe, hframe; simpl. repeat split; auto; try apply frame_refl; try apply F1.
+    + rewrite app_length; lia.
+    + intros a t Ha _. apply app_nth1. rewrite <- Lj. eapply nth_error_lt; eauto.
+  - constructor; unfold ext; simpl.
+    + intros i. do 4 (destruct i as [|i]; [exact I|]). destruct i as [|i]; [exact K1|].
+      do 3 (destruct i as [|i]; [exact I|]). exact I.
+    + intros i. do 5 (destruct i as [|i]; [exact I|]). exact I.
+    + exact I.
+    + auto.
+    + repeat split; simpl; auto.
+  - rewrite abs_obj_eq. unfold vclient0.
+    cbn [o_sl o_mp o_rt o_chain o_tchain o_scal o_jar o_fact o_par o_ext arrs maps recs jars with_jars with_arrs].
+    unfold abs_ext. cbn [e_dopt e_dumper e_tls bx_read].
+    assert (N0 : nth (length (jars H)) (jars H ++ [[]; TLS0]) [] = []).
+    { rewrite app_nth2 by lia. now rewrite Nat.sub_diag. }
+    assert (N1 : nth (S (length (jars H))) (jars H ++ [[]; TLS0]) [] = TLS0).
+    { rewrite app_nth2 by lia. replace (S (length (jars H)) - length (jars H)) with 1 by lia. reflexivity. }
+    rewrite N0, N1. cbn [map upd_nth repeat NSL NMP F_AFTER sl_read mp_read]. rewrite R1. reflexivity.
+Qed.
